@@ -349,6 +349,7 @@ type c08Cfg struct {
 	peerTimeout time.Duration // 0 = 5s
 	shortGI     bool          // group_interval 10s: the peer wait of later instances exceeds the un-extended flush timeout
 	restarts    bool          // restart events enabled
+	early       bool          // the history starts 1s after the processes (whole-cluster cold start): the first flush is held by the gossip settle stage
 }
 
 const fYAMLShortGI = `global:
@@ -389,7 +390,11 @@ func c08Run(t *testing.T, cfg c08Cfg, h []int) (res seqx.Result) {
 		x := &fx{t: t, gt: gt, env: m.inst[0].env}
 		_ = x
 		faulty, unreachable, cutOff, restarted := false, false, false, false
-		time.Sleep(25 * time.Second) // gossip settles
+		if cfg.early {
+			time.Sleep(time.Second)
+		} else {
+			time.Sleep(25 * time.Second) // gossip settles
+		}
 		synctest.Wait()
 		now := func() time.Duration { return time.Since(m.epoch) }
 		for _, e := range h {
@@ -607,6 +612,7 @@ func TestVerifC08(t *testing.T) {
 		{"mesh-3-short-interval", c08Cfg{n: 3, faults: true, peerTimeout: 6 * time.Second, shortGI: true}, 3, 4},
 		{"mesh-2-faults", c08Cfg{n: 2, faults: true, restarts: true}, 3, 4},
 		{"mesh-1", c08Cfg{n: 1}, 2, 3},
+		{"mesh-3-cold-start", c08Cfg{n: 3, early: true}, 2, 3},
 	}
 	for _, c := range cfgs {
 		if rp := rep.ReplaySpec(); rp != nil {
